@@ -1,13 +1,14 @@
 (* C11 - Wire encoding is canonical, stable, and what is signed is what is cleared.
    Statements restated from Proofs/CodecProofs.v and Proofs/CodecProofs2.v (closed by [exact]).
    Statements about the typed lenient decoder restated from Proofs/TypedDecProofs.v.
-   Partial: the typed lenient decoding of individual fields is modelled for the scalar-bodied caveat types (Model.TypedDec:
-   integer widths, nil-for-zero, str/bin interchange, array- and map-encoded structs, 16/32-bit truncation); see DESIGN.md
-   section 0 for the types whose bodies are modelled at the frame level only. *)
+   The typed lenient decoding is modelled for the scalar-bodied caveat types in Model.TypedDec and for all other types,
+   unregistered caveats and whole sets in Model.TypedDec2 (statements restated from Proofs/TypedDec2*.v); see DESIGN.md
+   section 0 for what the model's caveat type cannot represent (nil vs empty resource-set maps). *)
 From Coq Require Import List Bool NArith ZArith String Permutation Sorted Decimal DecimalString.
 From Mac Require Import Model.Err Model.Caveat Model.Access Model.Prohibits Model.Msgpack Model.Codec Proofs.CodecProofs Proofs.CodecProofs2 Proofs.JsonTypeProofs Generated.Facts.
 Import ListNotations.
 From Mac Require Import Model.TypedDec Proofs.TypedDecProofs.
+From Mac Require Import Model.TypedDec2 Proofs.TypedDec2Proofs Proofs.TypedDec2Accept Proofs.TypedDec2Frames.
 
 Theorem enc_rs_n_perm_invariant :
     forall l l' : list (N * N), Permutation l l' -> NoDup (map fst l) -> enc_rs_n l = enc_rs_n l'.
@@ -270,6 +271,93 @@ Theorem dec_body_bind_str :
     (N.of_nat (Datatypes.length p) < 2 ^ 32)%N -> dec_body 12 (enc_str p) = Some (CBind (Some p)).
 Proof. exact (@dec_body_bind_str_l). Qed.
 
+Theorem dec_cav_enc_body :
+    forall (ext pz : bool) (c : cav),
+    wf_cav c ->
+    canon_cav c ->
+    forall b : bytes,
+    enc_body c = Some b ->
+    forall (fuel : nat) (rest : list N),
+    Datatypes.length (b ++ rest) < fuel -> dec_cav ext pz fuel (cav_type c) (b ++ rest) = Some (c, rest).
+Proof. exact (@dec_cav_enc_body_l). Qed.
+
+Theorem dec_body2_enc_body :
+    forall c : cav,
+    wf_cav c ->
+    fits_cav c = true ->
+    canon_cav c -> forall b : bytes, enc_body c = Some b -> dec_body2 (cav_type c) b = Some c.
+Proof. exact (@dec_body2_enc_body_l). Qed.
+
+Theorem dec_body2_enc_body_norm :
+    forall c : cav,
+    wf_cav c ->
+    rs_nodup c ->
+    forall b : bytes,
+    enc_body c = Some b -> dec_body2 (cav_type c) b = Some (norm_cav c) /\ enc_body (norm_cav c) = Some b.
+Proof. exact (@dec_body2_enc_body_norm_l). Qed.
+
+Theorem dec_set_typed_enc_set :
+    forall cs : list cav,
+    Forall wf_cav cs ->
+    Forall canon_cav cs ->
+    (N.of_nat (Datatypes.length cs) < 2 ^ 31)%N ->
+    forall b : bytes, enc_set cs = Some b -> dec_set_typed b = Some cs.
+Proof. exact (@dec_set_typed_enc_set_l). Qed.
+
+Theorem dec_cav_good :
+    forall (ext pz : bool) (fuel : nat) (ty : N) (b : bytes) (c : cav) (r : bytes),
+    (ty < 2 ^ 64)%N ->
+    byte_list b ->
+    (N.of_nat (Datatypes.length b) < 2 ^ 29)%N ->
+    dec_cav ext pz fuel ty b = Some (c, r) ->
+    cav_type c = ty /\ wf_cav c /\ canon_cav c /\ (exists pre : list N, b = pre ++ r /\ pre <> []).
+Proof. exact (@dec_cav_good_l). Qed.
+
+Theorem dec_set_typed_good :
+    forall (ext pz : bool) (b : bytes) (cs : list cav),
+    byte_list b ->
+    (N.of_nat (Datatypes.length b) < 2 ^ 29)%N ->
+    dec_set_typed_gen ext pz b = Some cs ->
+    Forall wf_cav cs /\ Forall canon_cav cs /\ 2 * Datatypes.length cs <= Datatypes.length b.
+Proof. exact (@dec_set_typed_good_l). Qed.
+
+Theorem dec_body2_reenc :
+    forall (ty : N) (b : bytes) (c : cav),
+    (ty < 2 ^ 64)%N ->
+    byte_list b ->
+    (N.of_nat (Datatypes.length b) < 2 ^ 29)%N ->
+    dec_body2 ty b = Some c -> exists b' : bytes, enc_body c = Some b' /\ dec_body2 ty b' = Some c.
+Proof. exact (@dec_body2_reenc_l). Qed.
+
+Theorem dec_set_typed_reenc :
+    forall (b : bytes) (cs : list cav),
+    byte_list b ->
+    (N.of_nat (Datatypes.length b) < 2 ^ 29)%N ->
+    dec_set_typed b = Some cs -> exists b' : bytes, enc_set cs = Some b' /\ dec_set_typed b' = Some cs.
+Proof. exact (@dec_set_typed_reenc_l). Qed.
+
+Theorem dec_set_typed_frames :
+    forall (pz : bool) (b : bytes) (cs : list cav),
+    byte_list b ->
+    (N.of_nat (Datatypes.length b) < 2 ^ 29)%N ->
+    dec_set_typed_gen false pz b = Some cs ->
+    exists fs : list (N * bytes), dec_frames_len b = Some fs /\ map fst fs = map cav_type cs.
+Proof. exact (@dec_set_typed_frames_l). Qed.
+
+Theorem dec_cav_vspan :
+    forall (pz : bool) (fuel : nat) (ty : N), vspan (dec_cav false pz fuel ty).
+Proof. exact (@dec_cav_vspan_l). Qed.
+
+Theorem dec_set_typed_ext_mono :
+    forall (pz : bool) (b : bytes) (cs : list cav),
+    dec_set_typed_gen false pz b = Some cs -> dec_set_typed_gen true pz b = Some cs.
+Proof. exact (@dec_set_typed_ext_mono_l). Qed.
+
+Theorem dec_cav_fuel_enough :
+    forall (ext pz : bool) (f : nat) (ty : N) (b : bytes) (x : cav * bytes),
+    dec_cav ext pz f ty b = Some x -> dec_cav ext pz (S (Datatypes.length b)) ty b = Some x.
+Proof. exact (@dec_cav_fuel_enough_l). Qed.
+
 Print Assumptions enc_rs_n_perm_invariant.
 Print Assumptions enc_rs_s_perm_invariant.
 Print Assumptions enc_body_rs_perm.
@@ -309,3 +397,15 @@ Print Assumptions dec_int64_len_any_width.
 Print Assumptions dec_body_nil.
 Print Assumptions dec_body_google_hd_bin.
 Print Assumptions dec_body_bind_str.
+Print Assumptions dec_cav_enc_body.
+Print Assumptions dec_body2_enc_body.
+Print Assumptions dec_body2_enc_body_norm.
+Print Assumptions dec_set_typed_enc_set.
+Print Assumptions dec_cav_good.
+Print Assumptions dec_set_typed_good.
+Print Assumptions dec_body2_reenc.
+Print Assumptions dec_set_typed_reenc.
+Print Assumptions dec_set_typed_frames.
+Print Assumptions dec_cav_vspan.
+Print Assumptions dec_set_typed_ext_mono.
+Print Assumptions dec_cav_fuel_enough.
